@@ -236,6 +236,7 @@ def step (st : St) (line : String) : St × String :=
         else "?"
       (st, both (sortedMoves (st.mg.generateQuiescenceMoves b)) sp)
     | none => (st, modelOnly "bad-op")
+  | ["qstress", _, _, _] => (st, both "ok" "?")   -- interrupted searches before an observation: nothing the selection may depend on
   | ["qset", b] =>
     match parseBoard b with
     | some b =>
@@ -264,6 +265,17 @@ def step (st : St) (line : String) : St × String :=
       let (v, e) := evaluate st.evaluator b
       ({ st with evaluator := e }, both (toString v) "?")
     | none => (st, modelOnly "bad-op")
+  | ["eval.judge", b, score] =>
+    -- C14 magnitude: the score the implementation reported for a board with at most 16 men a side (one king each) lies strictly
+    -- inside the search window (INFINITY is re-extracted from search.rs on every run)
+    match parseBoard b, score.toInt? with
+    | some b, some v =>
+      let menOK := [Color.white, Color.black].all fun c =>
+        (Piece.all.map (fun p => countOnes (b.bb c p))).sum ≤ 16 && countOnes (b.bb c .king) == 1
+      if !menOK then (st, both "ok" "?")
+      else if Gen.NEGATIVE_INFINITY < v && v < Gen.INFINITY then (st, both "ok" "ok")
+      else (st, both "ok" s!"SCORE-OUTSIDE-SEARCH-WINDOW score={v} window=({Gen.NEGATIVE_INFINITY},{Gen.INFINITY})")
+    | _, _ => (st, modelOnly "bad-op")
   | ["eval.rel", b] =>
     match parseBoard b with
     | some b =>
@@ -396,7 +408,7 @@ def step (st : St) (line : String) : St × String :=
     | some b, some d =>
       let G := chessGame st.mg (zkeysOf st.skeys)
       match findBestMove G 100000 b d .none {} with
-      | (some (score, mv), s) => (st, both s!"{score} {optMvText mv} deeper={s.deeperHits}" "?")
+      | (some (score, mv), s) => (st, both s!"{score} {optMvText mv} deeper={s.deeperHits} nodes={s.nodes}" "?")
       | (none, _) => (st, both "?" "?")
     | _, _ => (st, modelOnly "bad-op")
   | ["s.qval", b] =>
